@@ -62,10 +62,18 @@ def main(argv=None):
             thorough_matrix(prop, a.repo, rep)
         return rep.finish()
     except AnalysisError as exc:
+        # what was decided before the analysis stopped stays decided: violations already recorded are reported (exit 1);
+        # with none recorded the answer is "could not analyse" (exit 2)
+        if rep.violations:
+            rep.unknown('the analysis stopped early: %s' % exc)
+            return rep.finish()
         print('ANALYSIS-ERROR: %s' % exc)
         return 2
-    except Exception:
+    except Exception as exc:
         traceback.print_exc()
+        if 'rep' in locals() and rep.violations:
+            rep.unknown('internal error of the analyser after the violations below were decided: %s: %s' % (type(exc).__name__, exc))
+            return rep.finish()
         print('ANALYSIS-ERROR: internal error of the analyser (see traceback)')
         return 2
 
